@@ -3,6 +3,7 @@ twin-run non-interference) + panics observed in the ledger family."""
 import json
 import os
 import random
+import re
 import time
 
 import gen_ledger
@@ -87,6 +88,25 @@ def run(pid, t, replay=None):
             raise ToolError("MC_Node (liveness): " + tlc_error_summary(out))
         d2, g2 = tlc_stats(out)
         log("MC_Node: %d distinct states (safety), %d (completion under fairness)" % (dist, d2))
+        if t == "thorough":
+            # beyond the bound: TLAPS proves HostileStep keeps HonestView for any number of connections / heights
+            import shutil
+            import subprocess
+            pd = os.path.join(wd, "tlaps")
+            os.makedirs(pd, exist_ok=True)
+            src = open(os.path.join(SPEC, "Node.tla")).read()
+            rec = "RECURSIVE Climb(_, _)\nClimb(t, hs) == IF t + 1 \\in hs THEN Climb(t + 1, hs) ELSE t"
+            if rec not in src:
+                raise ToolError("Node.tla: the recursive operator to be abstracted for tlapm was not found")
+            src = src.replace("MODULE Node ", "MODULE NodeP ").replace(rec, "CONSTANT Climb(_, _)")
+            open(os.path.join(pd, "NodeP.tla"), "w").write(src)
+            shutil.copy(os.path.join(SPEC, "NodeProofs.tla"), pd)
+            p = subprocess.run(["tlapm", "--threads", "8", "NodeProofs.tla"], cwd=pd, stdout=subprocess.PIPE, stderr=subprocess.STDOUT, text=True, timeout=1500)
+            m = re.search(r"All (\d+) obligations proved", p.stdout)
+            if not m:
+                raise ToolError("tlapm NodeProofs: " + p.stdout[-600:])
+            tlaps_note = "TLAPS: HostileStepKeepsHonestView proved (%s obligations), unbounded in connections / heights / budget" % m.group(1)
+            log(tlaps_note)
         # GEN: behaviours of the model by simulation
         cfg = os.path.join(wd, "MC_Node_sim.cfg")
         write_cfg(cfg, "MCSpec", SAFE[t], invariants=["TypeOK", "PrintScenario"], constraint="Bound")
@@ -102,6 +122,7 @@ def run(pid, t, replay=None):
     violations, known_hits = [], []
     known = load_known()
     consumed = 0
+    tlaps_note = locals().get("tlaps_note")
     stalled = []
     if scns:
         spath = os.path.join(wd, "scenarios.jsonl")
@@ -181,7 +202,7 @@ def run(pid, t, replay=None):
              "distinct scenario with at least one hostile input. The ledger family adds blocks and transactions with adversarial content (any panic there is reported here)",
         hostile_inputs=hostile_n, hostile_kinds=sorted("%s:%s" % k for k in kinds), action_counts=cov,
         samples=[scns[0], scns[-1]] if scns else lscns[:1], exhaustive=False,
-        mc_instance=SAFE[t], liveness_instance=LIVE,
+        mc_instance=SAFE[t], liveness_instance=LIVE, tlaps=tlaps_note,
         known_findings_matched=len(set(k["id"] for k in known_hits)),
         checker_cmd="tlc MC_Node.tla (safety + completion under fairness + -simulate GEN); harness/bin/node (twin run); tlc NodeTrace.tla; harness/bin/ledger; tlc LedgerTrace.tla",
         trusted_base=["TLC 1.8.0", "harness fullnode.rs (handlers stepped one call at a time; internal queue items tagged by origin)",
